@@ -252,7 +252,11 @@ def filter_rules(ctx: Ctx, only=None) -> None:
         ctx.check(lp is not None and isinstance(lp.iter, ast.Name) and lp.iter.id == nvals, "NOEXT",
                   f"{FN}: `{flag}` filter visits every allowed value", function=FN, construct=f"{flag} filter does not iterate the allowed list",
                   message="", file=fi.file, node=g)
-    ctx.floor("next-note fit filters (NEXT) in quantise_note_lengths", len(nxt), 1)
+    if not nxt:
+        ctx.violation("NEXT", f"{FN}: allowed values that would run into the next note of the pitch are removed", function=FN,
+                      construct="no filter removes the durations that reach into the next note of the same pitch",
+                      message="no removal from the list of admissible durations is guarded by a comparison with the next occurrence's onset: "
+                              "a note can be lengthened into (or past) the next note of its pitch", file=fi.file, node=fi.node)
     # the pairing compared with is the *next* occurrence of the pitch: occurrences[pitch][position of this pairing + 1]
     nzi = Normaliser()
     for a_ in ast.walk(fi.node):
